@@ -122,6 +122,9 @@ Definition c17_eng (prev : obs) (o : op) (cur : obs) : bool :=
       (* data changes and the write succeeds only if open and RW/WO; closed: refused *)
       (if serving prev then true else negb (is_ok (ores cur)) && same_img prev cur)
       && (if is_open prev then true else unchanged prev cur)
+  | OWriteFail _ =>
+      (* a write whose data write failed is reported failed and leaves image and counter alone *)
+      negb (is_ok (ores cur)) && same_img prev cur && Z.eqb (ocount prev) (ocount cur)
   | ORead => if is_open prev then true else negb (is_ok (ores cur)) && unchanged prev cur
   | ORemove | OPrepRemove =>
       if mode_is prev RW then true else negb (is_ok (ores cur)) && unchanged prev cur
